@@ -36,7 +36,7 @@ RULE = ('auth: every configuration (3 user tables x dict / callable->dict / call
         'Digest: 4 users x password candidates x 5 header-realm/hashed-realm pairs x 2 hashed methods x 4 qop x 4 nc/cnonce '
         'presences x 5 algorithms x 2 response styles, responses computed from the right / wrong passwords and from a degenerate A1 (the text None, nothing), every non-empty subset of the 5 required fields missing, extra fields, '
         'scheme spellings; raw malformed / unknown-scheme values) x 3 entry points, each on a fresh Request/Response; '
-        'sess: every request sequence (length 2, thorough also 3) over 8 clients x 9 cookie kinds on a fresh Sessions component '
+        'sess: every request sequence (length 2, thorough also 3) over 16 clients (2 IPv4 and 2 IPv6 addresses x 4 user agents) x 9 cookie kinds on a fresh Sessions component '
         'with scripted uuid; vhost: every gateway list x remote address x X-Forwarded-Host x Host x path on a fresh '
         'VirtualHosts.  distinct = distinct (configuration, header, entry point) / request sequence / routing case; '
         'non-trivial = the header carries an Authorization value (auth), the last request presents a cookie (sess), '
@@ -66,6 +66,8 @@ class StubSock:
         self.ip = ip
 
     def getpeername(self):
+        if ':' in self.ip:
+            return (self.ip, 40000, 0, 0)       # AF_INET6: (host, port, flowinfo, scope id)
         return (self.ip, 40000)
 
 
@@ -533,7 +535,7 @@ def auth_unit(unit, st, tier, want_sample):
 # =============================================================================================
 # session family
 
-IPS = ['10.0.0.1', '10.0.0.12']
+IPS = ['10.0.0.1', '10.0.0.12', '2001:db8::1', '2001:db8::12']
 AGENTS = [None, 'X', '2X', 'Y']
 CLIENTS = [(ip, ag) for ip in IPS for ag in AGENTS]
 COOKIE_KINDS = ['none', 'sid', 'transplant', 'forged-own-fp', 'forged-plain', 'sid-extended', 'uuid-only', 'empty', 'forged-foreign-fp']
